@@ -7,6 +7,8 @@ MCNodeOf3 == [i \in MCInst3 |-> IF i = "a2" THEN "n2" ELSE "n1"]
 MCSvcOf3  == [i \in MCInst3 |-> IF i = "b1" THEN "B" ELSE "A"]
 MCInst2   == {"a1", "b1"}
 MCNodeOf2 == [i \in MCInst2 |-> "n1"]
+\* three service names: a2 registers under a name of its own (service monitors that do not divide evenly)
+MCSvcOf3Split == [i \in MCInst3 |-> IF i = "b1" THEN "B" ELSE IF i = "a2" THEN "C" ELSE "A"]
 MCSvcOf2  == [i \in MCInst2 |-> IF i = "b1" THEN "B" ELSE "A"]
 MCManual  == {"none", "delA", "weightA", "addX", "bad"}
 MCManualSmall == {"none", "delA", "bad"}
